@@ -47,6 +47,8 @@ package varmq
 //@ func queue.Add
 //@   props C01 C03 C10 C17 C16
 //@   assert [signal-after-bookkeeping] before call invoke.notifyToPullNextJobs: j.status == queued
+// the job is published by Enqueue: from then on the dispatcher may run and close it, so the submitter's last status store comes before
+//@   assert [queued-before-publish] before call invoke.Enqueue: j.status == queued
 //@   requires q.externalBaseQueue != nil && q.externalBaseQueue.w != nil && q.internalQueue != nil
 //@   requires forall k int :: 0 <= k && k < len(configs) ==> configs[k] != nil
 //@   modifies $usercalls, $alloc, $wgdone[0], $lenOf(q.internalQueue), $enq(q.internalQueue), $lastEnq(q.internalQueue), $submitted, $signals(q.externalBaseQueue.w), $acks, $lastAck
@@ -62,6 +64,8 @@ package varmq
 //@ func queue.AddAll
 //@   props C01 C05 C08 C17 C16 C07
 //@   assert [signal-after-bookkeeping] before call invoke.notifyToPullNextJobs: j.job.status == queued
+// the job is published by Enqueue: from then on the dispatcher may run and close it, so the submitter's last status store comes before
+//@   assert [queued-before-publish] before call invoke.Enqueue: j.job.status == queued
 //@   requires q.externalBaseQueue != nil && q.externalBaseQueue.w != nil && q.internalQueue != nil && len(items) <= MaxUint32
 //@   modifies $usercalls, $alloc, $wgdone[0], $lenOf(q.internalQueue), $enq(q.internalQueue), $lastEnq(q.internalQueue), $submitted, $signals(q.externalBaseQueue.w), $acks, $lastAck
 //@   ensures [pending]  groupJob.wgc.count == $enq(q.internalQueue) - old($enq(q.internalQueue)) && RI_Wgc(groupJob.wgc)
@@ -93,6 +97,8 @@ package varmq
 //@ func errorQueue.Add
 //@   props C01 C03 C10 C17 C16
 //@   assert [signal-after-bookkeeping] before call invoke.notifyToPullNextJobs: j.job.status == queued
+// the job is published by Enqueue: from then on the dispatcher may run and close it, so the submitter's last status store comes before
+//@   assert [queued-before-publish] before call invoke.Enqueue: j.job.status == queued
 //@   requires q.externalBaseQueue != nil && q.externalBaseQueue.w != nil && q.internalQueue != nil
 //@   requires forall k int :: 0 <= k && k < len(configs) ==> configs[k] != nil
 //@   modifies $usercalls, $alloc, $wgdone[0], $lenOf(q.internalQueue), $enq(q.internalQueue), $lastEnq(q.internalQueue), $submitted, $signals(q.externalBaseQueue.w), $acks, $lastAck
@@ -107,6 +113,8 @@ package varmq
 //@ func errorQueue.AddAll
 //@   props C01 C05 C08 C17 C16 C07
 //@   assert [signal-after-bookkeeping] before call invoke.notifyToPullNextJobs: j.errorJob.job.status == queued
+// the job is published by Enqueue: from then on the dispatcher may run and close it, so the submitter's last status store comes before
+//@   assert [queued-before-publish] before call invoke.Enqueue: j.errorJob.job.status == queued
 //@   requires q.externalBaseQueue != nil && q.externalBaseQueue.w != nil && q.internalQueue != nil && len(items) <= MaxUint32
 //@   modifies $usercalls, $alloc, $wgdone[0], $lenOf(q.internalQueue), $enq(q.internalQueue), $lastEnq(q.internalQueue), $submitted, $signals(q.externalBaseQueue.w), $acks, $lastAck
 //@   ensures [pending]  groupJob.wgc.count == $enq(q.internalQueue) - old($enq(q.internalQueue)) && RI_Wgc(groupJob.wgc)
@@ -138,6 +146,8 @@ package varmq
 //@ func resultQueue.Add
 //@   props C01 C03 C10 C17 C16
 //@   assert [signal-after-bookkeeping] before call invoke.notifyToPullNextJobs: j.job.status == queued
+// the job is published by Enqueue: from then on the dispatcher may run and close it, so the submitter's last status store comes before
+//@   assert [queued-before-publish] before call invoke.Enqueue: j.job.status == queued
 //@   requires q.externalBaseQueue != nil && q.externalBaseQueue.w != nil && q.internalQueue != nil
 //@   requires forall k int :: 0 <= k && k < len(configs) ==> configs[k] != nil
 //@   modifies $usercalls, $alloc, $wgdone[0], $lenOf(q.internalQueue), $enq(q.internalQueue), $lastEnq(q.internalQueue), $submitted, $signals(q.externalBaseQueue.w), $acks, $lastAck
@@ -152,6 +162,8 @@ package varmq
 //@ func resultQueue.AddAll
 //@   props C01 C05 C08 C17 C16 C07
 //@   assert [signal-after-bookkeeping] before call invoke.notifyToPullNextJobs: j.resultJob.job.status == queued
+// the job is published by Enqueue: from then on the dispatcher may run and close it, so the submitter's last status store comes before
+//@   assert [queued-before-publish] before call invoke.Enqueue: j.resultJob.job.status == queued
 //@   requires q.externalBaseQueue != nil && q.externalBaseQueue.w != nil && q.internalQueue != nil && len(items) <= MaxUint32
 //@   modifies $usercalls, $alloc, $wgdone[0], $lenOf(q.internalQueue), $enq(q.internalQueue), $lastEnq(q.internalQueue), $submitted, $signals(q.externalBaseQueue.w), $acks, $lastAck
 //@   ensures [pending]  groupJob.wgc.count == $enq(q.internalQueue) - old($enq(q.internalQueue)) && RI_Wgc(groupJob.wgc)
@@ -183,6 +195,8 @@ package varmq
 //@ func priorityQueue.Add
 //@   props C01 C03 C10 C17 C16
 //@   assert [signal-after-bookkeeping] before call invoke.notifyToPullNextJobs: j.status == queued
+// the job is published by Enqueue: from then on the dispatcher may run and close it, so the submitter's last status store comes before
+//@   assert [queued-before-publish] before call invoke.Enqueue: j.status == queued
 //@   requires q.externalBaseQueue != nil && q.externalBaseQueue.w != nil && q.internalQueue != nil
 //@   requires forall k int :: 0 <= k && k < len(configs) ==> configs[k] != nil
 //@   modifies $usercalls, $alloc, $wgdone[0], $lenOf(q.internalQueue), $enq(q.internalQueue), $lastEnq(q.internalQueue), $lastEnqPrio(q.internalQueue), $submitted, $signals(q.externalBaseQueue.w), $acks, $lastAck
@@ -197,6 +211,8 @@ package varmq
 //@ func priorityQueue.AddAll
 //@   props C01 C05 C08 C17 C16 C07
 //@   assert [signal-after-bookkeeping] before call invoke.notifyToPullNextJobs: j.job.status == queued
+// the job is published by Enqueue: from then on the dispatcher may run and close it, so the submitter's last status store comes before
+//@   assert [queued-before-publish] before call invoke.Enqueue: j.job.status == queued
 //@   requires q.externalBaseQueue != nil && q.externalBaseQueue.w != nil && q.internalQueue != nil && len(items) <= MaxUint32
 //@   modifies $usercalls, $alloc, $wgdone[0], $lenOf(q.internalQueue), $enq(q.internalQueue), $lastEnq(q.internalQueue), $lastEnqPrio(q.internalQueue), $submitted, $signals(q.externalBaseQueue.w), $acks, $lastAck
 //@   ensures [pending]  groupJob.wgc.count == $enq(q.internalQueue) - old($enq(q.internalQueue)) && RI_Wgc(groupJob.wgc)
@@ -226,6 +242,8 @@ package varmq
 //@ func errorPriorityQueue.Add
 //@   props C01 C03 C10 C17 C16
 //@   assert [signal-after-bookkeeping] before call invoke.notifyToPullNextJobs: j.job.status == queued
+// the job is published by Enqueue: from then on the dispatcher may run and close it, so the submitter's last status store comes before
+//@   assert [queued-before-publish] before call invoke.Enqueue: j.job.status == queued
 //@   requires q.externalBaseQueue != nil && q.externalBaseQueue.w != nil && q.internalQueue != nil
 //@   requires forall k int :: 0 <= k && k < len(configs) ==> configs[k] != nil
 //@   modifies $usercalls, $alloc, $wgdone[0], $lenOf(q.internalQueue), $enq(q.internalQueue), $lastEnq(q.internalQueue), $lastEnqPrio(q.internalQueue), $submitted, $signals(q.externalBaseQueue.w), $acks, $lastAck
@@ -240,6 +258,8 @@ package varmq
 //@ func errorPriorityQueue.AddAll
 //@   props C01 C05 C08 C17 C16 C07
 //@   assert [signal-after-bookkeeping] before call invoke.notifyToPullNextJobs: j.errorJob.job.status == queued
+// the job is published by Enqueue: from then on the dispatcher may run and close it, so the submitter's last status store comes before
+//@   assert [queued-before-publish] before call invoke.Enqueue: j.errorJob.job.status == queued
 //@   requires q.externalBaseQueue != nil && q.externalBaseQueue.w != nil && q.internalQueue != nil && len(items) <= MaxUint32
 //@   modifies $usercalls, $alloc, $wgdone[0], $lenOf(q.internalQueue), $enq(q.internalQueue), $lastEnq(q.internalQueue), $lastEnqPrio(q.internalQueue), $submitted, $signals(q.externalBaseQueue.w), $acks, $lastAck
 //@   ensures [pending]  groupJob.wgc.count == $enq(q.internalQueue) - old($enq(q.internalQueue)) && RI_Wgc(groupJob.wgc)
@@ -271,6 +291,8 @@ package varmq
 //@ func resultPriorityQueue.Add
 //@   props C01 C03 C10 C17 C16
 //@   assert [signal-after-bookkeeping] before call invoke.notifyToPullNextJobs: j.job.status == queued
+// the job is published by Enqueue: from then on the dispatcher may run and close it, so the submitter's last status store comes before
+//@   assert [queued-before-publish] before call invoke.Enqueue: j.job.status == queued
 //@   requires q.externalBaseQueue != nil && q.externalBaseQueue.w != nil && q.internalQueue != nil
 //@   requires forall k int :: 0 <= k && k < len(configs) ==> configs[k] != nil
 //@   modifies $usercalls, $alloc, $wgdone[0], $lenOf(q.internalQueue), $enq(q.internalQueue), $lastEnq(q.internalQueue), $lastEnqPrio(q.internalQueue), $submitted, $signals(q.externalBaseQueue.w), $acks, $lastAck
@@ -285,6 +307,8 @@ package varmq
 //@ func resultPriorityQueue.AddAll
 //@   props C01 C05 C08 C17 C16 C07
 //@   assert [signal-after-bookkeeping] before call invoke.notifyToPullNextJobs: j.resultJob.job.status == queued
+// the job is published by Enqueue: from then on the dispatcher may run and close it, so the submitter's last status store comes before
+//@   assert [queued-before-publish] before call invoke.Enqueue: j.resultJob.job.status == queued
 //@   requires q.externalBaseQueue != nil && q.externalBaseQueue.w != nil && q.internalQueue != nil && len(items) <= MaxUint32
 //@   modifies $usercalls, $alloc, $wgdone[0], $lenOf(q.internalQueue), $enq(q.internalQueue), $lastEnq(q.internalQueue), $lastEnqPrio(q.internalQueue), $submitted, $signals(q.externalBaseQueue.w), $acks, $lastAck
 //@   ensures [pending]  groupJob.wgc.count == $enq(q.internalQueue) - old($enq(q.internalQueue)) && RI_Wgc(groupJob.wgc)
